@@ -8,12 +8,13 @@ conditions are mutually exclusive and jointly exhaustive.  Pointers live in this
 import sys
 sys.setrecursionlimit(200000)
 
+VAR_DEFS = {}     # var name -> constant (positions of visible operations, fixed after execution)
 VS_LIMIT = 64
 PAIR_LIMIT = 1024
 
 
 class Term:
-    __slots__ = ('op', 'args', 'w', 'id', 'vs', 'ow')
+    __slots__ = ('op', 'args', 'w', 'id', 'vs', 'ow', 'sm')
 
     def __repr__(self):
         return 't%d:%s/%d' % (self.id, self.op, self.w)
@@ -21,11 +22,14 @@ class Term:
 
 _table = {}
 _terms = []
+_xmemo = {}
 
 
 def reset():
     _table.clear()
     del _terms[:]
+    VAR_DEFS.clear()
+    _xmemo.clear()
 
 
 def nterms():
@@ -37,7 +41,7 @@ def _mk(op, w, args, ow=0):
     t = _table.get(key)
     if t is None:
         t = Term()
-        t.op = op; t.w = w; t.args = args; t.id = len(_terms); t.vs = False; t.ow = ow
+        t.op = op; t.w = w; t.args = args; t.id = len(_terms); t.vs = False; t.ow = ow; t.sm = False
         _terms.append(t)
         _table[key] = t
     return t
@@ -71,6 +75,56 @@ def Not(a):
     return _mk('not', 0, (a,))
 
 
+SM_LIMIT = 400
+
+
+def _bound_of(l):
+    """literal -> (term, lo, hi, excluded) over unsigned values, or None"""
+    neg = False
+    if l.op == 'not':
+        neg = True; l = l.args[0]
+    op = l.op
+    if op not in ('ult', 'ule', 'eq'): return None
+    a, b = l.args
+    ca = not isinstance(a, Term); cb = not isinstance(b, Term)
+    if ca == cb: return None
+    top = (1 << l.ow) - 1
+    if op == 'eq':
+        x, c = (a, b) if cb else (b, a)
+        return (x, c, c, None) if not neg else (x, 0, top, c)
+    if cb:      # x op c
+        x, c = a, b
+        if op == 'ult': return (x, 0, c - 1, None) if not neg else (x, c, top, None)
+        return (x, 0, c, None) if not neg else (x, c + 1, top, None)
+    x, c = b, a  # c op x
+    if op == 'ult': return (x, c + 1, top, None) if not neg else (x, 0, c, None)
+    return (x, c, top, None) if not neg else (x, 0, c - 1, None)
+
+
+def _summary(t):
+    """(frozenset of literal ids -> via dict id->term, bounds {xid: [lo, hi, excl frozenset]}) or None"""
+    sm = t.sm
+    if sm is not False: return sm
+    if t.op == 'and' and t.w == 0:
+        sm = None      # built by And()
+    else:
+        lits = {t.id: t}
+        bd = {}
+        b = _bound_of(t)
+        if b is not None:
+            x, lo, hi, ex = b
+            bd[x.id] = (lo, hi, frozenset((ex,)) if ex is not None else frozenset())
+        sm = (lits, bd)
+    t.sm = sm
+    return sm
+
+
+def _neg_in(l, lits):
+    if l.op == 'not': return l.args[0].id in lits
+    n = _table.get(('not', 0, (l,)))
+    return n is not None and n.id in lits
+
+
 def And(a, b):
     if a is False or b is False: return False
     if a is True: return b
@@ -81,7 +135,39 @@ def And(a, b):
     if b.op == 'and' and (b.args[0] is a or b.args[1] is a): return b
     if a.op == 'and' and (a.args[0] is b or a.args[1] is b): return a
     if a.id > b.id: a, b = b, a
-    return _mk('and', 0, (a, b))
+    r = _table.get(('and', 0, (a, b)))
+    if r is not None: return r
+    sa = _summary(a); sb = _summary(b)
+    sm = None
+    if sa is not None and sb is not None:
+        la, ba = sa; lb, bb = sb
+        if len(la) < len(lb):
+            la, lb = lb, la; ba, bb = bb, ba; big, small = b, a
+        else:
+            big, small = a, b
+        new = [l for i, l in lb.items() if i not in la]
+        if not new: return big
+        for l in new:
+            if _neg_in(l, la): return False
+        if len(la) + len(new) <= SM_LIMIT:
+            bd = ba
+            if bb:
+                bd = dict(ba)
+                for xid, (lo, hi, ex) in bb.items():
+                    o = bd.get(xid)
+                    if o is not None:
+                        lo = max(lo, o[0]); hi = min(hi, o[1]); ex = ex | o[2]
+                        if lo > hi: return False
+                        while lo in ex and lo <= hi: lo += 1
+                        while hi in ex and hi >= lo: hi -= 1
+                        if lo > hi: return False
+                    bd[xid] = (lo, hi, ex)
+            lits = dict(la)
+            for l in new: lits[l.id] = l
+            sm = (lits, bd)
+    r = _mk('and', 0, (a, b))
+    r.sm = sm
+    return r
 
 
 def Or(a, b):
@@ -92,6 +178,15 @@ def Or(a, b):
     if (a.op == 'not' and a.args[0] is b) or (b.op == 'not' and b.args[0] is a): return True
     if b.op == 'or' and (b.args[0] is a or b.args[1] is a): return b
     if a.op == 'or' and (a.args[0] is b or a.args[1] is b): return a
+    # diamond: (x and c) or (x and not c) -> x
+    if a.op == 'and' and b.op == 'and':
+        a0, a1 = a.args; b0, b1 = b.args
+        for x, c, y, d in ((a0, a1, b0, b1), (a0, a1, b1, b0), (a1, a0, b0, b1), (a1, a0, b1, b0)):
+            if x is y and ((c.op == 'not' and c.args[0] is d) or (d.op == 'not' and d.args[0] is c)):
+                return x
+    # absorption: x or (x and y) -> x
+    if b.op == 'and' and (b.args[0] is a or b.args[1] is a): return a
+    if a.op == 'and' and (a.args[0] is b or a.args[1] is b): return b
     if a.id > b.id: a, b = b, a
     return _mk('or', 0, (a, b))
 
@@ -406,10 +501,15 @@ def Extract(hi, lo, x, xw):
     r = _lift1(lambda k: (k >> lo) & mask(w), x, w)
     if r is not None: return r
     if x.op == 'ite':
-        # push extract through ite if branches simplify (constants on one side)
-        c, a, b = x.args
-        if not isinstance(a, Term) or not isinstance(b, Term):
-            return Ite(c, Extract(hi, lo, a, xw), Extract(hi, lo, b, xw), w)
+        # push extract through ite (memoised): memory words are ite-chains over concat'ed sub-word stores
+        key = (hi, lo, x.id)
+        r = _xmemo.get(key)
+        if r is None:
+            c, a, b = x.args
+            r = Ite(c, Extract(hi, lo, a, xw), Extract(hi, lo, b, xw), w)
+            _xmemo[key] = (r,)
+            return r
+        return r[0]
     if x.op in ('and', 'or', 'xor') and lo == 0 and not isinstance(x.args[1], Term):
         return BinOp(x.op, Extract(hi, 0, x.args[0], xw), x.args[1] & mask(w), w)
     if x.op in ('add', 'mul') and lo == 0 and not isinstance(x.args[1], Term):
@@ -563,7 +663,8 @@ def evaluate(t, model, cache=None):
         if x.id in cache:
             stack.pop(); continue
         if x.op == 'var':
-            v = model.get(x.args[0], 0)
+            v = VAR_DEFS.get(x.args[0])
+            if v is None: v = model.get(x.args[0], 0)
             cache[x.id] = bool(v) if x.w == 0 else int(v) & mask(x.w)
             stack.pop(); continue
         pend = [a for a in x.args if isinstance(a, Term) and a.id not in cache]
@@ -630,7 +731,9 @@ class Emitter:
             if x.op == 'var':
                 done.add(x.id); stack.pop()
                 self.vars[x.args[0]] = x
-                out.append('(declare-const %s %s)' % (self.vname(x), self.sort(x.w)))
+                d = VAR_DEFS.get(x.args[0])
+                if d is not None: out.append('(define-fun %s () %s %s)' % (self.vname(x), self.sort(x.w), _c(d, x.w)))
+                else: out.append('(declare-const %s %s)' % (self.vname(x), self.sort(x.w)))
                 continue
             pend = [a for a in x.args if isinstance(a, Term) and a.id not in done]
             if pend:
